@@ -436,3 +436,366 @@ Proof.
   rewrite E1, E2. cbn [andb]. rewrite (scan_identifier_key _ _ _ Hc Hk). reflexivity.
 Qed.
 End Steps2.
+
+(* ---- the document through the fence pre-pass and the tab check -------------------------------------------- *)
+Section Doc.
+Variable cls : N -> N.
+Variable nfcf : str -> str.      (* the NFC oracle *)
+
+Definition lines_of_raw_nfc (s : str) : list (str * str) := map (fun l => (l, nfcf l)) (split_on c_nl s).
+
+(* the five non-zone lines (and the empty line after the final newline) *)
+Definition fixed_lines (name key : str) (tag : option str) (marker : str) : list str :=
+  [s_env ++ name ++ s_env; key ++ s_assign; marker ++ tag_str tag; marker; s_end; []].
+
+Definition zone_text (content : str) (tag : option str) (marker : str) : str :=
+  join [c_nl] ((marker ++ tag_str tag) :: content_lines content ++ [marker]).
+Definition zone_span (name key content : str) (tag : option str) (marker : str) : span :=
+  let s := len (nlcat [s_env ++ name ++ s_env; key ++ s_assign]) in
+  mkSpan s (s + len (zone_text content tag marker)) marker tag.
+
+Variables (name key content : str) (tag : option str) (marker : str).
+Hypothesis Hname : name_ok name = true.
+Hypothesis Hkey : key_ok key = true.
+Hypothesis Hzone : zone_ok marker content = true.
+Hypothesis Htag : tag_ok cls tag = true.
+Hypothesis Hnfc : forall l, In l (fixed_lines name key tag marker) -> nfcf l = l.
+
+Let Hmarker : marker_ok marker = true.
+Proof. unfold zone_ok in Hzone. apply andb_prop in Hzone. apply Hzone. Qed.
+Let Hlines : forallb (line_ok marker) (content_lines content) = true.
+Proof. unfold zone_ok in Hzone. apply andb_prop in Hzone. apply Hzone. Qed.
+
+Lemma marker_no_nl : memb c_nl marker = false.
+Proof. destruct (marker_ok_inv _ Hmarker) as [_ H]. exact (memb_forallb_false (N.eqb c_bt) c_nl marker eq_refl H). Qed.
+Lemma marker_no_tab : memb c_tab marker = false.
+Proof. destruct (marker_ok_inv _ Hmarker) as [_ H]. exact (memb_forallb_false (N.eqb c_bt) c_tab marker eq_refl H). Qed.
+
+Lemma doc_lines_nl_free :
+  forallb (fun l => negb (memb c_nl l)) (zone_doc_lines name key content tag marker) = true.
+Proof.
+  destruct (tag_ok_inv cls tag Htag) as (_ & Htn & _).
+  unfold zone_doc_lines. rewrite !forallb_app. cbn [forallb].
+  rewrite !memb_app, marker_no_nl, Htn.
+  rewrite (memb_forallb_false env_id_char c_nl name eq_refl (name_chars _ Hname)).
+  rewrite (memb_forallb_false key_char c_nl key eq_refl (key_chars _ Hkey)).
+  cbn. rewrite andb_true_r. unfold content_lines. destruct content; [reflexivity|]. apply split_on_lines_nl_free.
+Qed.
+
+Lemma lines_of_doc sp :
+  lines_of_raw_nfc (emit sp (zone_doc name key content tag marker)) =
+  map (fun l => (l, nfcf l)) (zone_doc_lines name key content tag marker).
+Proof.
+  unfold lines_of_raw_nfc. rewrite emit_zone_doc, split_join; [reflexivity|discriminate|exact doc_lines_nl_free].
+Qed.
+
+Lemma fence_scan_doc :
+  fence_scan cls (map (fun l => (l, nfcf l)) (zone_doc_lines name key content tag marker)) 1 0 None [] [] =
+  inr (zone_doc_lines name key content tag marker, [zone_span name key content tag marker]).
+Proof.
+  destruct (tag_ok_inv cls tag Htag) as (Htb & Htn & Htof & _).
+  destruct (name_ok_inv _ Hname) as (n0 & nr & En & _).
+  destruct (key_ok_inv _ Hkey) as (k0 & kr & Ek & Hk0 & _). destruct (upper_range _ Hk0) as [R1 R2].
+  set (envl := s_env ++ name ++ s_env). set (keyl := key ++ s_assign). set (openl := marker ++ tag_str tag).
+  assert (F1 : fence_match envl = None) by reflexivity.
+  assert (F2 : fence_match keyl = None).
+  { unfold keyl. rewrite Ek. cbn [app]. apply fence_match_nonfence; apply N.eqb_neq; unfold c_sp, c_bt; lia. }
+  assert (F3 : fence_match openl = Some (marker, tag_str tag)) by (apply fence_match_marker; assumption).
+  assert (F4 : fence_match marker = Some (marker, [])).
+  { rewrite <- (app_nil_r marker) at 1. apply fence_match_marker; [assumption|reflexivity]. }
+  assert (F5 : fence_match s_end = None) by reflexivity.
+  assert (F6 : fence_match [] = None) by reflexivity.
+  assert (C4 : closes cls marker [] marker = true) by (unfold closes; rewrite Nat.eqb_refl; reflexivity).
+  assert (N1 : nfcf envl = envl) by (apply Hnfc; cbn; auto).
+  assert (N2 : nfcf keyl = keyl) by (apply Hnfc; cbn; auto).
+  assert (N3 : nfcf openl = openl) by (apply Hnfc; cbn; auto).
+  assert (N4 : nfcf marker = marker) by (apply Hnfc; cbn; auto).
+  assert (N5 : nfcf s_end = s_end) by (apply Hnfc; cbn; auto 10).
+  assert (N6 : nfcf [] = []) by (apply Hnfc; cbn; auto 10).
+  unfold zone_doc_lines. fold envl keyl openl. rewrite !map_app. cbn [map app]. rewrite N1, N2, N3, N4, N5, N6.
+  rewrite (fs_outside _ _ _ _ _ _ _ _ F1), (fs_outside _ _ _ _ _ _ _ _ F2), (fs_open _ _ _ _ _ _ _ _ _ _ F3), Htof.
+  rewrite fs_content by exact Hlines.
+  rewrite (fs_close _ _ _ _ _ _ _ _ _ _ _ _ _ _ F4 C4), (fs_outside _ _ _ _ _ _ _ _ F5), (fs_outside _ _ _ _ _ _ _ _ F6).
+  cbn [fence_scan]. f_equal. f_equal.
+  - cbn [rev]. rewrite rev_app_distr, rev_involutive. cbn [rev app]. rewrite <- !app_assoc. reflexivity.
+  - cbn [rev app]. unfold zone_span, zone_text. fold envl keyl openl. f_equal. f_equal.
+    + rewrite !nlcat_cons. cbn [nlcat flat_map]. rewrite !len_app, !len_cons, len_app, len_cons, len_nil. lia.
+    + rewrite app_comm_cons, join_snoc, nlcat_cons.
+      rewrite !nlcat_cons. cbn [nlcat flat_map]. rewrite !len_app, !len_cons, !len_app, !len_cons, len_nil. lia.
+Qed.
+End Doc.
+
+(* ---- parser on the token shape of the document ----------------------------------------------------------- *)
+Definition zone_doc_shape (name key content : str) (tag : option str) (marker : str) : list (tkind * tvalue) :=
+  [ (ENVELOPE_START, TVText name); (NEWLINE, TVText [c_nl]);
+    (IDENTIFIER, TVText key); (ASSIGN, TVText [c_colon; c_colon]); (NEWLINE, TVText [c_nl]);
+    (FENCE_OPEN, TVFence marker tag); (LITERAL_CONTENT, TVText content); (FENCE_CLOSE, TVText marker); (NEWLINE, TVText [c_nl]);
+    (ENVELOPE_END, TVText [69; 78; 68]); (NEWLINE, TVText [c_nl]); (EOF, TVNone) ].
+
+Lemma tok_eta t : t = mkTok (tk t) (tv t) (tline t) (tcol t) (tnorm t).
+Proof. destruct t; reflexivity. Qed.
+
+Lemma parse_zone_doc_shape numcanon holo strict sp alpha name key content tag marker toks :
+  str_eqb key (lit "META") = false ->
+  map (fun t => (tk t, tv t)) toks = zone_doc_shape name key content tag marker ->
+  exists st', parse_document numcanon holo strict sp alpha (mkPS toks None 0 [] 0 []) =
+              POk (zone_doc name key content (norm_tag sp tag) marker) st' /\ pwarns st' = [].
+Proof.
+  intros Hmeta Hshape. unfold zone_doc_shape in Hshape.
+  do 12 (destruct toks as [|[?k ?v ?l ?c ?n] toks]; [discriminate Hshape|]). destruct toks; [|discriminate Hshape].
+  cbn [map tk tv] in Hshape. injection Hshape. clear Hshape. intros. subst.
+  unfold parse_document.
+  lazy [skip_kinds kin existsb tkind_eqb tkind_code is ck cur ptoks tk fuel_of length N.eqb Pos.eqb negb andb orb
+        Parser.adv text_of tv pprev ppos pwarns pbdepth pwarned].
+  rewrite Hmeta.
+  lazy -[strip_sp norm_tag tline tcol tnorm].
+  eexists. split; reflexivity.
+Qed.
+
+(* ---- the text, the tab check, the lexer run ---------------------------------------------------------------- *)
+Lemma nth_memb_false c (l : str) k : memb c l = false -> (k < length l)%nat -> nth k l 0 <> c.
+Proof.
+  revert k; induction l as [|x l IH]; intros k Hm Hk; [cbn in Hk; lia|].
+  cbn [memb existsb] in Hm. apply orb_false_iff in Hm. destruct Hm as [H1 H2].
+  destruct k as [|k]; cbn [nth].
+  - intros ->. rewrite N.eqb_refl in H1. discriminate.
+  - apply IH; [exact H2|cbn [length] in Hk; lia].
+Qed.
+
+Lemma memb_cons c x l : memb c (x :: l) = N.eqb c x || memb c l.
+Proof. reflexivity. Qed.
+
+Section Main.
+Variable cls : N -> N.
+Variable nfcf : str -> str.
+Variables (name key content : str) (tag : option str) (marker : str).
+Hypothesis Hname : name_ok name = true.
+Hypothesis Hkey : key_ok key = true.
+Hypothesis Hzone : zone_ok marker content = true.
+Hypothesis Htag : tag_ok cls tag = true.
+Hypothesis Hnfc : forall l, In l (fixed_lines name key tag marker) -> nfcf l = l.
+
+Let Hmarker : marker_ok marker = true.
+Proof. unfold zone_ok in Hzone. apply andb_prop in Hzone. apply Hzone. Qed.
+
+Notation ZT := (zone_text content tag marker).
+Notation ZS := (zone_span name key content tag marker).
+Notation L := (zone_doc_lines name key content tag marker).
+
+Lemma doc_text :
+  join [c_nl] L = nlcat [s_env ++ name ++ s_env; key ++ s_assign] ++ ZT ++ c_nl :: s_end ++ [c_nl].
+Proof.
+  unfold zone_doc_lines, zone_text.
+  set (envl := s_env ++ name ++ s_env). set (keyl := key ++ s_assign). set (openl := marker ++ tag_str tag).
+  transitivity (join [c_nl] ([envl; keyl] ++ (openl :: content_lines content ++ [marker]) ++ [s_end; []])).
+  - f_equal. cbn [app]. rewrite <- app_assoc. reflexivity.
+  - rewrite join_nlcat by discriminate. rewrite join_app2 by discriminate.
+    rewrite (join_cons2 _ s_end). cbn [join]. rewrite app_nil_r. reflexivity.
+Qed.
+
+Lemma doc_text_lex :
+  join [c_nl] L =
+  s_eq3 ++ name ++ s_eq3 ++ c_nl :: key ++ c_colon :: c_colon :: c_nl :: ZT ++ c_nl :: s_end_env ++ [c_nl].
+Proof.
+  rewrite doc_text. rewrite !nlcat_cons. cbn [nlcat flat_map]. rewrite ?app_nil_r.
+  change s_env with s_eq3. change s_assign with [c_colon; c_colon]. change s_end with s_end_env.
+  repeat (progress (rewrite <- ?app_assoc; cbn [app])). reflexivity.
+Qed.
+
+Lemma zone_text_head : exists r, ZT = c_bt :: r.
+Proof.
+  destruct (marker_ok_inv _ Hmarker) as [Hl Hb].
+  unfold zone_text. destruct marker as [|b m']; [cbn in Hl; lia|].
+  cbn [forallb] in Hb. apply andb_prop in Hb. destruct Hb as [Hb _]. apply N.eqb_eq in Hb. subst b.
+  change (join [c_nl] (((c_bt :: m') ++ tag_str tag) :: content_lines content ++ [c_bt :: m']))
+    with (join [c_nl] ([(c_bt :: m') ++ tag_str tag] ++ (content_lines content ++ [c_bt :: m']))).
+  rewrite join_nlcat by (destruct (content_lines content); discriminate).
+  cbn [nlcat flat_map app]. eexists. reflexivity.
+Qed.
+
+Lemma tab_check_doc : tab_check (join [c_nl] L) 0 1 1 [ZS] = None.
+Proof.
+  rewrite doc_text. set (P := nlcat [s_env ++ name ++ s_env; key ++ s_assign]).
+  set (Q := c_nl :: s_end ++ [c_nl]).
+  assert (HP : memb c_tab P = false).
+  { unfold P. rewrite !nlcat_cons. cbn [nlcat flat_map]. rewrite ?app_nil_r.
+    repeat (rewrite memb_app || rewrite memb_cons).
+    rewrite (memb_forallb_false env_id_char c_tab name eq_refl (name_chars _ Hname)).
+    rewrite (memb_forallb_false key_char c_tab key eq_refl (key_chars _ Hkey)). reflexivity. }
+  assert (HQ : memb c_tab Q = false) by reflexivity.
+  apply tab_check_none. intros k Hk Hn. rewrite N.add_0_l.
+  cbn [in_spans zone_span sp_start sp_end]. fold P. rewrite orb_false_r.
+  rewrite !app_length in Hk.
+  destruct (lt_dec k (length P)) as [Hlt|Hge].
+  - rewrite app_nth1 in Hn by exact Hlt. exfalso. exact (nth_memb_false _ _ _ HP Hlt Hn).
+  - rewrite app_nth2 in Hn by lia.
+    destruct (lt_dec (k - length P) (length ZT)) as [Hlt2|Hge2].
+    + apply andb_true_intro. unfold len. split; [apply N.leb_le|apply N.ltb_lt]; lia.
+    + rewrite app_nth2 in Hn by lia. exfalso.
+      refine (nth_memb_false _ _ _ HQ _ Hn). lia.
+Qed.
+
+Lemma span_start_eq :
+  sp_start ZS = 0 + len (s_eq3 ++ name ++ s_eq3) + 1 + len key + 2 + 1.
+Proof.
+  cbn [zone_span sp_start]. rewrite !nlcat_cons. cbn [nlcat flat_map]. rewrite ?app_nil_r.
+  change s_env with s_eq3. change s_assign with [c_colon; c_colon].
+  repeat (rewrite len_app || rewrite len_cons || rewrite len_nil). lia.
+Qed.
+
+Lemma step_at_fence lenient st sp rest :
+  ls_in st <> [] -> ls_spans st = sp :: rest -> ls_pos st = sp_start sp ->
+  step cls lenient st = step_fence st sp rest.
+Proof.
+  intros Hne Hs Hp. unfold step. destruct (ls_in st); [congruence|]. rewrite Hs, Hp, N.eqb_refl. reflexivity.
+Qed.
+
+Definition lex_reps : list repair := rev (key_reps key (1 + 1) 1 ++ []).
+
+Lemma lex_doc :
+  exists toks,
+    run cls false (S (length (join [c_nl] L))) (mkLS (join [c_nl] L) None 0 1 1 [] [] [] [ZS]) = LexOk toks lex_reps /\
+    map (fun t => (tk t, tv t)) toks = zone_doc_shape name key content tag marker.
+Proof.
+  destruct (tag_ok_inv cls tag Htag) as (Htb & Htn & _).
+  pose proof span_start_eq as Hstart.
+  rewrite doc_text_lex.
+  set (m := s_eq3 ++ name ++ s_eq3) in *.
+  set (r5 := ZT ++ c_nl :: s_end_env ++ [c_nl]).
+  set (T := s_eq3 ++ name ++ s_eq3 ++ c_nl :: key ++ c_colon :: c_colon :: c_nl :: r5).
+  set (F := S (length T)).
+  (* 1: ===NAME=== *)
+  set (st0 := mkLS T None 0 1 1 [] [] [] [ZS]).
+  assert (B0 : (length (ls_in st0) < F)%nat) by (cbn [ls_in st0]; unfold F; lia).
+  assert (S1 := step_envelope_start cls st0 name _ eq_refl Hname).
+  match type of S1 with _ -> _ = Continue ?s => set (st1 := s) in * end.
+  destruct (run_step cls false F st0 st1) as [R1 B1]; [apply S1|exact B0|].
+  { intros sp0 rest0 E. cbn [ls_spans st0] in E. inversion E; subst sp0 rest0. cbn [ls_pos st0]. rewrite Hstart. lia. }
+  (* 2: newline *)
+  assert (S2 := step_newline cls st1 _ eq_refl).
+  match type of S2 with _ -> _ = Continue ?s => set (st2 := s) in * end.
+  destruct (run_step cls false F st1 st2) as [R2 B2]; [apply S2|exact B1|].
+  { intros sp0 rest0 E. cbn [ls_spans st1 st0] in E. inversion E; subst sp0 rest0. cbn [ls_pos st1 st0]. rewrite Hstart. fold m. lia. }
+  (* 3: KEY *)
+  assert (S3 := step_key cls st2 key _ eq_refl Hkey).
+  match type of S3 with _ -> _ -> _ = Continue ?s => set (st3 := s) in * end.
+  destruct (run_step cls false F st2 st3) as [R3 B3]; [apply S3|exact B2|].
+  { cbn [ls_pos st2 st1 st0]. lia. }
+  { intros sp0 rest0 E. cbn [ls_spans st2 st1 st0] in E. inversion E; subst sp0 rest0. cbn [ls_pos st2 st1 st0]. rewrite Hstart. fold m. lia. }
+  (* 4: :: *)
+  assert (S4 := step_assign cls st3 _ eq_refl).
+  match type of S4 with _ -> _ = Continue ?s => set (st4 := s) in * end.
+  destruct (run_step cls false F st3 st4) as [R4 B4]; [apply S4|exact B3|].
+  { intros sp0 rest0 E. cbn [ls_spans st3 st2 st1 st0] in E. inversion E; subst sp0 rest0. cbn [ls_pos st3 st2 st1 st0]. rewrite Hstart. fold m. lia. }
+  (* 5: newline *)
+  assert (S5 := step_newline cls st4 _ eq_refl).
+  match type of S5 with _ -> _ = Continue ?s => set (st5 := s) in * end.
+  destruct (run_step cls false F st4 st5) as [R5 B5]; [apply S5|exact B4|].
+  { intros sp0 rest0 E. cbn [ls_spans st4 st3 st2 st1 st0] in E. inversion E; subst sp0 rest0. cbn [ls_pos st4 st3 st2 st1 st0]. rewrite Hstart. fold m. lia. }
+  (* 6: the zone *)
+  assert (S6 : step cls false st5 = step_fence st5 ZS []).
+  { apply step_at_fence.
+    - cbn [ls_in st5]. unfold r5. destruct zone_text_head as [r ->]. discriminate.
+    - reflexivity.
+    - cbn [ls_pos st5 st4 st3 st2 st1 st0]. rewrite Hstart. fold m. reflexivity. }
+  pose proof (step_fence_content st5 ZS [] (marker ++ tag_str tag) (content_lines content) marker (c_nl :: s_end_env ++ [c_nl])) as S6'.
+  rewrite memb_app, Htn, (marker_no_nl _ _ Hzone) in S6'. specialize (S6' eq_refl eq_refl eq_refl).
+  assert (Hsp : sp_end ZS - sp_start ZS = len (join [c_nl] ((marker ++ tag_str tag) :: content_lines content ++ [marker]))).
+  { cbn [zone_span sp_start sp_end]. unfold zone_text. lia. }
+  specialize (S6' Hsp). cbv zeta in S6'. rewrite join_content_lines in S6'. rewrite <- S6 in S6'.
+  match type of S6' with _ = Continue ?s => set (st6 := s) in * end.
+  destruct (run_step cls false F st5 st6 S6' B5) as [R6 B6].
+  (* 7: ===END=== *)
+  assert (S7 := step_envelope_end cls st6 _ eq_refl).
+  match type of S7 with _ -> _ = Continue ?s => set (st7 := s) in * end.
+  destruct (run_step cls false F st6 st7) as [R7 B7]; [apply S7|exact B6|].
+  { intros sp0 rest0 E. cbn [ls_spans st6] in E. discriminate. }
+  (* 8: newline *)
+  assert (S8 := step_newline cls st7 _ eq_refl).
+  match type of S8 with _ -> _ = Continue ?s => set (st8 := s) in * end.
+  destruct (run_step cls false F st7 st8) as [R8 B8]; [apply S8|exact B7|].
+  { intros sp0 rest0 E. cbn [ls_spans st7 st6] in E. discriminate. }
+  fold st0. rewrite R1, R2, R3, R4, R5, R6, R7, R8.
+  unfold F. rewrite run_S. cbn [ls_in st8]. unfold finish. cbn [ls_brk st8 st7 st6 st5 st4 st3 st2 st1 st0 rev].
+  eexists. split; [reflexivity|]. reflexivity.
+Qed.
+
+End Main.
+
+(* ================================================================================================= *)
+(* 6. the round trip                                                                                   *)
+(* ================================================================================================= *)
+Section RoundTrip.
+Variable cls : N -> N.                                   (* unicodedata classes *)
+Variable numcanon : str -> option (bool * str).          (* number canonicaliser *)
+Variable holo : str -> bool.                             (* holographic pattern oracle *)
+Variable strict : bool.
+Variable nfcf : str -> str.                              (* the NFC oracle *)
+
+Lemma tokenize_zone_doc name key content tag marker :
+  name_ok name = true -> key_ok key = true -> zone_ok marker content = true -> tag_ok cls tag = true ->
+  (forall l, In l (fixed_lines name key tag marker) -> nfcf l = l) ->
+  exists toks,
+    tokenize cls false (map (fun l => (l, nfcf l)) (zone_doc_lines name key content tag marker)) = LexOk toks (lex_reps key) /\
+    map (fun t => (tk t, tv t)) toks = zone_doc_shape name key content tag marker.
+Proof.
+  intros Hname Hkey Hzone Htag Hnfc. unfold tokenize.
+  rewrite (fence_scan_doc cls nfcf name key content tag marker Hname Hkey Hzone Htag Hnfc).
+  rewrite (tab_check_doc name key content tag marker Hname Hkey).
+  eapply lex_doc; eassumption.
+Qed.
+
+(* HEADLINE (6) *)
+Theorem zone_roundtrip name key content tag marker :
+  name_ok name = true -> key_ok key = true -> zone_ok marker content = true -> tag_ok cls tag = true ->
+  (forall l, In l (fixed_lines name key tag marker) -> nfcf l = l) ->
+  parse_model cls numcanon holo strict
+    (lines_of_raw_nfc nfcf (emit (u_space cls) (zone_doc name key content tag marker))) =
+  PRDoc (zone_doc name key content tag marker) (lex_reps key) [].
+Proof.
+  intros Hname Hkey Hzone Htag Hnfc.
+  assert (Hmarker : marker_ok marker = true) by (unfold zone_ok in Hzone; apply andb_prop in Hzone; apply Hzone).
+  rewrite (lines_of_doc cls nfcf name key content tag marker Hname Hkey Hzone Htag).
+  unfold parse_model.
+  assert (Hfm : strip_frontmatter (u_space cls) (map (fun l => (l, nfcf l)) (zone_doc_lines name key content tag marker)) =
+                (map (fun l => (l, nfcf l)) (zone_doc_lines name key content tag marker), None)) by reflexivity.
+  rewrite Hfm.
+  destruct (tokenize_zone_doc name key content tag marker Hname Hkey Hzone Htag Hnfc) as (toks & Htok & Hshape).
+  rewrite Htok.
+  destruct (key_ok_inv _ Hkey) as (k0 & kr & _ & _ & _ & Hmeta).
+  destruct (parse_zone_doc_shape numcanon holo strict (u_space cls) (u_alpha cls) name key content tag marker toks Hmeta Hshape)
+    as (st' & Hp & Hw).
+  rewrite Hp, Hw. destruct (tag_ok_inv cls tag Htag) as (_ & _ & _ & Hnt). rewrite Hnt. reflexivity.
+Qed.
+
+(* ASCII corollary: an oracle that is the identity on ASCII lines (NFC never changes ASCII text) *)
+Corollary zone_roundtrip_ascii name key content tag marker :
+  name_ok name = true -> key_ok key = true -> zone_ok marker content = true -> tag_ok cls tag = true ->
+  forallb is_ascii (tag_str tag) = true ->
+  (forall l, forallb is_ascii l = true -> nfcf l = l) ->
+  parse_model cls numcanon holo strict
+    (lines_of_raw_nfc nfcf (emit (u_space cls) (zone_doc name key content tag marker))) =
+  PRDoc (zone_doc name key content tag marker) (lex_reps key) [].
+Proof.
+  intros Hname Hkey Hzone Htag Hta Hid. apply zone_roundtrip; try assumption.
+  assert (Hmarker : marker_ok marker = true) by (unfold zone_ok in Hzone; apply andb_prop in Hzone; apply Hzone).
+  assert (An : forallb is_ascii name = true).
+  { pose proof (name_chars _ Hname) as H. apply forallb_forall. intros x Hx. rewrite forallb_forall in H. specialize (H x Hx).
+    unfold env_id_char in H. apply orb_prop in H. destruct H as [H|H].
+    - unfold is_alnum, is_alpha, is_upper, is_lower, is_digit in H. unfold is_ascii. apply N.ltb_lt.
+      repeat (apply orb_prop in H; destruct H as [H|H]); apply andb_prop in H; destruct H as [_ H]; apply N.leb_le in H; lia.
+    - apply N.eqb_eq in H. subst x. reflexivity. }
+  assert (Ak : forallb is_ascii key = true).
+  { pose proof (key_chars _ Hkey) as H. apply forallb_forall. intros x Hx. rewrite forallb_forall in H. specialize (H x Hx).
+    unfold key_char in H. apply orb_prop in H. destruct H as [H|H].
+    - unfold is_alnum, is_alpha, is_upper, is_lower, is_digit in H. unfold is_ascii. apply N.ltb_lt.
+      repeat (apply orb_prop in H; destruct H as [H|H]); apply andb_prop in H; destruct H as [_ H]; apply N.leb_le in H; lia.
+    - apply N.eqb_eq in H. subst x. reflexivity. }
+  assert (Am : forallb is_ascii marker = true).
+  { destruct (marker_ok_inv _ Hmarker) as [_ H]. apply forallb_forall. intros x Hx. rewrite forallb_forall in H.
+    specialize (H x Hx). apply N.eqb_eq in H. subst x. reflexivity. }
+  intros l Hl. apply Hid. unfold fixed_lines in Hl. cbn [In] in Hl.
+  repeat (destruct Hl as [<-|Hl]); try (rewrite ?forallb_app, ?An, ?Ak, ?Am, ?Hta; reflexivity). destruct Hl.
+Qed.
+
+End RoundTrip.
